@@ -30,6 +30,10 @@ def knn_case(draw, nmax=10, kinds=("knn", "unsup"), nq=(0, 0), kmax_force=False,
     else:
         max_k = draw(st.integers(1, hi_k))
     case = {"model": model, "mode": mode, "nt": nt, "nq": n_q, "max_k": max_k}
+    if draw(st.booleans()):
+        # the model object has a history before the fit that is checked, and helper calls between the fit and the prediction
+        case["prelude"] = draw(st.lists(st.sampled_from(["fit_other", "fit_bigger_k", "predict_other", "get_distances", "via_load", "fit_other", "fit_scaled_then_predict"]), min_size=1, max_size=4))
+        case["mid"] = draw(st.lists(st.sampled_from(["predict_first", "propagate_labels", "get_distances"]), min_size=0, max_size=2))
     if model == "knn":
         Y = draw(gen.labels(nt, 1, 3))
         K = max(Y) + 1
@@ -160,6 +164,44 @@ def run(case, predict=True, record_criterion=True, need_symmetric=True, allow_ne
             if need_symmetric and r.D[i][j] != r.D[j][i]:
                 return "asymmetric_by_rounding"
     Y = None if case.get("Y") is None else np.array(case["Y"], dtype=int)
+
+    # ---- history on the same object before the fit that is checked
+    import os
+    import tempfile
+
+    def _plain_fit(m, X_, Y_, I_):
+        if case["model"] == "knn":
+            libcall(m.fit, X_, Y_, Xv, np.array(case["Yv"], dtype=int), I_, I_v)
+        else:
+            libcall(m.fit, X_, Y_, I_)
+
+    for op in case.get("prelude", []):
+        trained = getattr(model, "subgraph", None) is not None and model.subgraph.trained
+        if op == "fit_other":
+            # the same samples with the labels in reverse order (same classes), i.e. another labelled set
+            Yo = None if Y is None else Y[::-1].copy()
+            _plain_fit(model, Xtr.copy(), Yo, I_tr)
+        elif op == "fit_scaled_then_predict" and case["mode"] == "feat" and case.get("pkind") != "prob" and not case.get("train_int"):
+            # an earlier fit on differently spread data (other density range, other constant), followed by a prediction
+            Xs = Xtr.copy()
+            Xs[: max(1, nt // 2)] *= 4.0
+            _plain_fit(model, Xs, Y, I_tr)
+            libcall(model.predict, Xs[:2].copy())
+        elif op == "fit_bigger_k" and case["max_k"] + 1 <= nt - 1:
+            # an earlier fit with a larger neighbourhood range, then the range is lowered through the public attributes
+            model.max_k = case["max_k"] + 1
+            _plain_fit(model, Xtr.copy(), Y, I_tr)
+            model.max_k = case["max_k"]
+        elif op == "predict_other" and trained:
+            libcall(model.predict, Xtr[:2].copy(), None if I_tr is None else I_tr[:2].copy())
+        elif op == "get_distances" and trained:
+            libcall(model.get_distances)
+        elif op == "via_load":
+            with tempfile.TemporaryDirectory(prefix="knncase-") as tmp:
+                f = os.path.join(tmp, "m.pkl")
+                libcall(model.save, f)
+                model = libcall(cls)  # default constructor arguments
+                libcall(model.load, f)
     r.criterion = []
     r.loop_density = []
     if case["model"] == "knn":
@@ -217,6 +259,14 @@ def run(case, predict=True, record_criterion=True, need_symmetric=True, allow_ne
     r.Xq, r.I_q = Xq, I_q
     r.preds = r.clusters = None
     if predict and nq:
+        for op in case.get("mid", []):
+            if op == "predict_first":
+                libcall(model.predict, Xq[::-1].copy(), None if I_q is None else I_q[::-1].copy())
+            elif op == "propagate_labels" and case["model"] == "unsup":
+                libcall(model.propagate_labels)
+            elif op == "get_distances":
+                libcall(model.get_distances)
+        r.state = models.node_state(model)  # labels may have been propagated: the prediction rule reads the CURRENT model
         out = libcall(model.predict, Xq, I_q)
         if case["model"] == "unsup":
             r.preds, r.clusters = [int(v) for v in out[0]], [int(v) for v in out[1]]
